@@ -227,15 +227,6 @@ theorem fromJson?_wf (j : Json) (p : Policy) (h : fromJson? j = some p) : p.maps
     · simp only [Option.some.injEq] at hh
       subst hh
       exact key w _ hx
-  | arr items =>
-    simp only [fromJson?] at h
-    match items, h with
-    | [a, b, c], h =>
-      simp only [policyOfSeq, Option.bind_eq_some_iff] at h
-      obtain ⟨v, _, i, _, st, hst, hp⟩ := h
-      simp only [Option.some.injEq] at hp
-      subst hp
-      exact key c st hst
   | _ => simp [fromJson?] at h
 
 
@@ -365,13 +356,6 @@ theorem fromJson?_must (j : Json) (p : Policy) (h : fromJson? j = some p) :
           simp [(optString_some_iff .idShape u).mp ⟨y, hy⟩]
       · simp only [statementNodes, hm, List.flatMap_cons, List.flatMap_nil, List.append_nil]
         exact statementsOfJson_must w x hx
-  | arr items =>
-    simp only [fromJson?] at h
-    match items, h with
-    | [a, b, c], h =>
-      simp only [policyOfSeq, Option.bind_eq_some_iff] at h
-      obtain ⟨v, _, i, _, st, hst, _⟩ := h
-      exact ⟨rfl, statementsOfJson_must c st hst⟩
   | _ => simp [fromJson?] at h
 
 /-! ## the encoder against the value-side shape specification -/
